@@ -30,13 +30,13 @@ import (
 
 // c01Rec: the values the engine-side stand-ins return, and what they recorded.
 var c01Rec struct {
-	bloom                           types.Bloom
-	receiptSha, txSha, root, uncle  common.Hash
-	blockHash                       common.Hash
-	known, parentBlock, parentState bool
-	rootCalls                       int
-	rootFlag                        bool
-	lookups                         int
+	bloom                                   types.Bloom
+	receiptSha, txSha, root, rootDel, uncle common.Hash
+	blockHash                               common.Hash
+	known, parentBlock, parentState         bool
+	rootCalls                               int
+	rootFlag                                bool
+	lookups                                 int
 }
 
 func c01CreateBloom(receipts types.Receipts) types.Bloom { return c01Rec.bloom }
@@ -56,6 +56,10 @@ func c01CalcUncleHash(uncles []*types.Header) common.Hash { return c01Rec.uncle 
 func c01IntermediateRoot(s *state.StateDB, deleteEmptyObjects bool) common.Hash {
 	c01Rec.rootCalls++
 	c01Rec.rootFlag = deleteEmptyObjects
+	// the root depends on the empty-account rule it is computed with
+	if deleteEmptyObjects {
+		return c01Rec.rootDel
+	}
 	return c01Rec.root
 }
 
@@ -151,8 +155,11 @@ func VerifC01_ValidateState() {
 		c01Rec.bloom = types.BytesToBloom(vs.BytesN("recBloom", types.BloomByteLength))
 		c01Rec.receiptSha = c01SymHash("recReceiptSha")
 		c01Rec.root = c01SymHash("recRoot")
+		c01Rec.rootDel = c01SymHash("recRootDeletingEmpty")
 	} else {
 		statedb, _ = state.New(common.Hash{}, state.NewDatabase(aquadb.NewMemDatabase()))
+		// an empty dirty account: the native root depends on the empty-account rule too
+		statedb.CreateAccount(common.HexToAddress("0xe0"))
 	}
 	recBloom := types.CreateBloom(receipts)
 	recReceiptSha := types.DeriveSha(receipts)
@@ -210,7 +217,6 @@ func VerifC01_ValidateState() {
 	}
 	if vs.Symbolic() && early {
 		vs.Assert(c01Rec.rootCalls == 1, "IntermediateRoot called exactly once")
-		vs.Assert(c01Rec.rootFlag == wantFlag, "IntermediateRoot called with deleteEmptyObjects = IsEIP158(number)")
 	}
 }
 
